@@ -1,11 +1,12 @@
 //@unit reader
-//@props C01
+//@props C01 C02
 // U-reader: the two loops every input goes through first (src/events.rs): InputList::from_reader
 // (the XML reader loop with the open-tag index stack) and tagify_events (the indexed scan with its
 // skip-ahead). Proved: no index out of bounds, no `expect` on an Err, no arithmetic overflow, both
 // loops terminate (tagify: strictly advancing cursor), reader errors become Err values; and the
 // start/end links written into the list are in range and point backwards / forwards correctly.
 //@assume quick-xml Reader model: read_event_into returns an arbitrary event or error and consumes at least one byte (and at least one per newline reported) of an input of fewer than usize::MAX bytes; the reader reaches Eof or an error after finitely many events (termination of from_reader's `loop` is by the input length: decreases on the unread byte budget)
+//@assume inner_events / all_events: the element's event_range lies within context.events (precondition: the range comes from from_reader's links via tagify_events and set_event_range; not proved as a global invariant of the element table)
 //@assume R-abstract: counting newlines of an event (iterator + closure) is event_lines(); the trailing-indent computation on the text (rsplit_once / trim_end_matches) is trailing_indent(); SvgElement::try_from(InputEvent) is opaque
 use vstd::prelude::*;
 //@prelude fmt_macro
@@ -116,6 +117,45 @@ impl InputList {
 //@ - links_ok(events@)
 //@ decreases
 //@ - reader.budget()     @@C01.reader.terminates
+//@end
+}
+
+// ------------------------------------------------------------------------------ the events of an element (SvgElement::inner_events / all_events)
+/// only the field these functions read
+pub struct TransformerContext { pub events: Vec<InputEvent>, pub rest: CtxRest2 }
+#[verifier::external_body] pub struct CtxRest2 { _p: u8 }
+/// `InputList::from(&v[a..b])`: a copy of the events a..b (the index bound check is the obligation)
+#[verifier::external_body]
+pub fn list_from_range(v: &Vec<InputEvent>, a: usize, b: usize) -> (r: InputList)
+    requires a <= b <= v@.len()
+    ensures r.events@ == v@.subrange(a as int, b as int)
+{ unimplemented!() }
+impl InputList {
+//@item src/events.rs :: impl InputList :: fn new
+//@ ensures
+//@ - r.events@.len() == 0
+//@end
+}
+impl SvgElement {
+//@item src/element.rs :: impl SvgElement :: fn inner_events
+//@ implicit C01
+//@ replace-re[R-range] <<<InputList::from\(&context\.events\[(.+?)\.\.(.+?)\]\)>>> => <<<list_from_range(&context.events, \1, \2)>>>
+//@ requires
+//@ - self.event_range is Some ==> self.event_range->Some_0.0 <= self.event_range->Some_0.1 < context.events@.len()
+//@ ensures
+//@ - self.event_range is Some && self.event_range->Some_0.1 > self.event_range->Some_0.0 ==> r is Some
+//@       && r->Some_0.events@ == context.events@.subrange(self.event_range->Some_0.0 + 1, self.event_range->Some_0.1 as int)     @@C02.element.pair_has_inner_list @@C03.element.inner_verbatim
+//@ - (self.event_range is None || self.event_range->Some_0.1 == self.event_range->Some_0.0) ==> r is None
+//@end
+//@item src/element.rs :: impl SvgElement :: fn all_events
+//@ implicit C01
+//@ body-start
+//@ | let ghost_len_ = context.events.len();     // (exec call only to bring `len <= usize::MAX` into scope)
+//@ replace-re[R-range] <<<InputList::from\(&context\.events\[(.+?)\.\.(.+?)\]\)>>> => <<<list_from_range(&context.events, \1, \2)>>>
+//@ requires
+//@ - self.event_range is Some ==> self.event_range->Some_0.0 <= self.event_range->Some_0.1 < context.events@.len()
+//@ ensures
+//@ - self.event_range is Some ==> r.events@ == context.events@.subrange(self.event_range->Some_0.0 as int, self.event_range->Some_0.1 + 1)     @@C03.element.all_verbatim
 //@end
 }
 
